@@ -21,7 +21,7 @@ const c04Tuples = 5 * 4 * 4 * 4 // ifGenerationMatch {unset,=cur,!=cur,0,junk} x
 // C04: preconditions gate mutations exactly. Complete enumeration of the condition-tuple space in both tiers, random
 // histories on top; oracle = truth table of the statement + "a failed request changed nothing" whole-bucket diff.
 func runC04(run *common.Run) {
-	run.Rule = fmt.Sprintf("sub-space 'enum' (enumerated COMPLETELY in both tiers, exhaustive=true refers to it): %d condition tuples (ifGenerationMatch in {unset,=cur,!=cur,0,junk} x ifGenerationNotMatch, ifMetagenerationMatch, ifMetagenerationNotMatch in {unset,=cur,!=cur,junk}) x object state {absent, fresh (metageneration 1), patched (metageneration 3), deleted-and-recreated (!=cur = the deleted generation)} x operation {media, multipart, resumable (conditions at initiation), patch, delete, compose destination, patch whose body is a full object resource as an EARLIER metadata GET returned it (stale generation / metageneration / md5Hash / size for the patched and recreated states) with one user field changed - for a quarter of the tuples the resource of the neighbour object nb1, for another quarter renamed to an object that does not exist, so that name / id / links in the body differ from the URL -, patch whose body has valid members (user metadata, acl / owner / retention / customerEncryption) followed by a member of the wrong JSON type} x store {mem,file} = %d cases; sub-space 'src' (complete): compose with 1-3 sources, per-source ifGenerationMatch in {unset,=cur,!=cur} at every position x destination {absent,fresh} x store. The target is uploaded with acl entries, owner, retention and customerEncryption in its metadata and every plain PATCH of the grid that must fail also names those nested fields with other values. Each case = fresh bucket with two neighbour objects, set-up of the target state, baseline dump, the one request, dump; expected status from the truth table, after any non-2xx the dump must equal the baseline. 'late' (complete): resumable sessions initiated with one condition, the target overwritten / patched / deleted / created while the session is open, then completed: the condition is judged against the object at completion; 'hist': random histories whose conditions refer to generations learned earlier. Non-trivial = the request carried at least one condition (enum/src) resp. the history saw both a passing and a failing conditioned request; distinct by case index.", c04Tuples, c04Tuples*len(c04States)*len(c04Ops)*2)
+	run.Rule = fmt.Sprintf("sub-space 'enum' (enumerated COMPLETELY in both tiers, exhaustive=true refers to it): %d condition tuples (ifGenerationMatch in {unset,=cur,!=cur,0,junk} x ifGenerationNotMatch, ifMetagenerationMatch, ifMetagenerationNotMatch in {unset,=cur,!=cur,junk}) x object state {absent, fresh (metageneration 1), patched (metageneration 3), deleted-and-recreated (!=cur = the deleted generation)} x operation {media, multipart, resumable (conditions at initiation), patch, delete, compose destination, patch whose body is a full object resource as an EARLIER metadata GET returned it (stale generation / metageneration / md5Hash / size for the patched and recreated states) with one user field changed - for a quarter of the tuples the resource of the neighbour object nb1, for another quarter renamed to an object that does not exist, so that name / id / links in the body differ from the URL -, patch whose body has valid members (user metadata, acl / owner / retention / customerEncryption) followed by a member of the wrong JSON type} x store {mem,file} = %d cases; sub-space 'src' (complete): compose with 1-3 sources, per-source ifGenerationMatch in {unset,=cur,!=cur} at every position x destination {absent,fresh} x store. The target is uploaded with acl entries, owner, retention and customerEncryption in its metadata and every plain PATCH of the grid that must fail also names those nested fields with other values. Each case = fresh bucket with two neighbour objects, set-up of the target state, baseline dump, the one request, dump; expected status from the truth table, after any non-2xx the dump must equal the baseline. 'folder' (complete): the same %d tuples x {delete, patch} x addressed name {'t', 't/'} x store in a bucket that holds 't/x' and 't/y/z' but never held an object 't' or 't/': the addressed object is absent, so only {} and {ifGenerationMatch=0} pass the conditions and then there is nothing to delete / patch (never a 2xx), an unparsable value is 400, and the dump afterwards - the objects below the prefix in particular - must equal the baseline. 'late' (complete): resumable sessions initiated with one condition, the target overwritten / patched / deleted / created while the session is open, then completed: the condition is judged against the object at completion; 'hist': random histories whose conditions refer to generations learned earlier, including conditioned and unconditioned deletes / patches of never-stored names that are '/'-prefixes of stored names (with and without trailing slash) and read-only steps after which the dump must be unchanged. Non-trivial = the request carried at least one condition (enum/src/folder) resp. the history saw both a passing and a failing conditioned request; distinct by case index.", c04Tuples, c04Tuples*len(c04States)*len(c04Ops)*2, c04Tuples)
 	run.Assumptions = []string{
 		"truth table taken from the statement: junk => 400; absent object passes only {} and {ifGenerationMatch=0}; 412 for match-type, 304 for not-match-type failures, either when both kinds fail; on an absent object 412 or 304 (and 404 for patch/delete)",
 		"zero values for the three parameters other than ifGenerationMatch are outside the stated space and never sent",
@@ -100,6 +100,40 @@ func runC04(run *common.Run) {
 			}
 		})
 	}
+	// 'folder' (complete): the addressed name was never stored but objects are stored BELOW it ("t" resp. "t/" while
+	// "t/x" and "t/y/z" exist): an absent object, whatever a store keeps for the prefix internally.
+	nfolder := c04Tuples * 2 * 2 * 2
+	if run.WantSub("folder") {
+		common.Parallel(W, W, func(w int) {
+			srvs := map[string]*drive.Server{}
+			defer func() {
+				for _, s := range srvs {
+					s.Close()
+				}
+			}()
+			for idx := w; idx < nfolder; idx += W {
+				if !run.Want("folder", idx) {
+					continue
+				}
+				if run.TooMany() {
+					aborted.Store(true)
+					return
+				}
+				store := drive.Stores[idx%2]
+				if srvs[store] == nil {
+					s, err := drive.Start(store, "")
+					if err != nil {
+						run.Violation("folder", idx, "cannot start emulator: "+err.Error(), nil)
+						return
+					}
+					srvs[store] = s
+				}
+				j.Begin(w, fmt.Sprintf("C04 folder case=%d seed=%d", idx, run.Seed))
+				c04Folder(run, srvs[store], idx)
+				j.End(w)
+			}
+		})
+	}
 	type lateCase struct{ store, state, cond, between string }
 	var late []lateCase
 	for _, store := range drive.Stores {
@@ -127,7 +161,7 @@ func runC04(run *common.Run) {
 	}
 	if run.Replay == nil && !aborted.Load() {
 		run.Exhaustive = true
-		run.Set("exhaustive_subspace", fmt.Sprintf("enum: all %d (tuple x state x operation x store) cases; src: all %d compose per-source cases; the random histories are sampling", total, nsrc))
+		run.Set("exhaustive_subspace", fmt.Sprintf("enum: all %d (tuple x state x operation x store) cases; src: all %d compose per-source cases; folder: all %d (tuple x {delete, patch} x {t, t/} x store) cases on a never-stored name that is a '/'-prefix of stored names; the random histories are sampling", total, nsrc, nfolder))
 	}
 	nh := run.N(40, 2000)
 	if run.WantSub("hist") {
@@ -372,6 +406,92 @@ func c04Late(run *common.Run, idx int, store, state, cond, between string) {
 	}
 }
 
+// c04Folder: one condition tuple on a delete / patch addressed to a name that was never stored and is only a "/"-prefix
+// of stored names (without and with a trailing slash).
+func c04Folder(run *common.Run, srv *drive.Server, idx int) {
+	code := idx / 2
+	tuple := code % c04Tuples
+	code /= c04Tuples
+	op := []string{"delete", "patch"}[code%2]
+	name := []string{"t", "t/"}[(code/2)%2]
+	r := run.Rand("C04.folder", idx)
+	e := newExec(srv, true)
+	defer e.flush(run)
+	b := fmt.Sprintf("f%d", idx)
+	fail := func(what string) {
+		run.Violation("folder", idx, what, map[string]any{"store": srv.Kind, "operation": op, "name": name, "tuple": tuple, "steps": e.steps})
+	}
+	if _, msg := c04Setup(e, b, "absent", r); msg != "" {
+		fail("set-up: " + msg)
+		return
+	}
+	e.universe[b] = append(e.universe[b], "t/", "t/x", "t/y", "t/y/", "t/y/z")
+	for _, n := range []string{"t/x", "t/y/z"} {
+		if msg := e.upload(&uploadSpec{Proto: "media", Bucket: b, Name: n, Body: []byte("stored below the prefix: " + n), CT: "text/plain"}, r); msg != "" {
+			fail("set-up: " + msg)
+			return
+		}
+	}
+	if msg := e.verify(); msg != "" {
+		fail("baseline dump: " + msg)
+		return
+	}
+	// condition values as for an absent object in 'enum': a neighbour's generation (+1), metageneration 1 / 2
+	genCur, genOther := e.m.Get(b, "t/x").Gen, e.m.Get(b, "t/x").Gen+1
+	if tuple%2 == 1 {
+		genCur, genOther = e.m.Get(b, "nb1").Gen, e.m.Get(b, "t/y/z").Gen
+	}
+	junk := junkValues[tuple%len(junkValues)]
+	var c model.Conds
+	switch tuple % 5 {
+	case 1:
+		c.GM = model.I(genCur)
+	case 2:
+		c.GM = model.I(genOther)
+	case 3:
+		c.GM = model.I(0)
+	case 4:
+		c.GM = model.S(junk)
+	}
+	pick := func(sel int, cur, other int64) *string {
+		switch sel {
+		case 1:
+			return model.I(cur)
+		case 2:
+			return model.I(other)
+		case 3:
+			return model.S(junk)
+		}
+		return nil
+	}
+	c.GNM = pick((tuple/5)%4, genCur, genOther)
+	c.MM = pick((tuple/20)%4, 1, 2)
+	c.MNM = pick((tuple/80)%4, 1, 2)
+	var msg string
+	if op == "delete" {
+		msg = e.delFolder(b, name, c)
+	} else {
+		body := map[string]any{"contentLanguage": "de"}
+		for k, v := range genNestedPatch(r) {
+			body[k] = v
+		}
+		msg = e.patch(b, name, body, c)
+	}
+	if msg != "" {
+		fail(msg)
+		return
+	}
+	if msg := e.verify(); msg != "" {
+		fail("after the conditioned request: " + msg)
+		return
+	}
+	run.Case(common.Hash64("folder", fmt.Sprint(idx)), !c.Empty())
+	run.Count("folder_verdict_"+model.Eval(nil, c).String(), 1)
+	if idx == 1234 {
+		run.Sample(map[string]any{"sub": "folder", "store": srv.Kind, "operation": op, "name": name, "conds": c.String(), "steps": tailSteps(e.steps, 1)})
+	}
+}
+
 func c04Src(run *common.Run, srv *drive.Server, idx int) {
 	// idx -> store (idx%2), destination state, k and the base-3 code of the per-source conditions
 	code := idx / 2
@@ -438,8 +558,8 @@ func c04History(run *common.Run, idx int) {
 	fail := func(what string) {
 		run.Violation("hist", idx, what, map[string]any{"store": store, "steps": tailSteps(e.steps, 40), "steps_total": len(e.steps)})
 	}
-	o := &progOpts{Buckets: []string{"vb1"}, Names: []string{"t", "u", "dir/v", "w.txt"}, FileRules: store == "file", CondPct: 75, JunkPct: 6, MD5Pct: 10, NoGzip: true, ExtraPct: 50,
-		W: map[string]int{"upload": 20, "overwrite": 25, "delete": 14, "delete_absent": 5, "patch": 14, "patch_full": 12, "patch_bad": 8, "patch_absent": 4, "compose": 10, "noop": 1}}
+	o := &progOpts{Buckets: []string{"vb1"}, Names: []string{"t", "u", "dir/v", "w.txt"}, FileRules: store == "file", CondPct: 75, JunkPct: 6, MD5Pct: 10, NoGzip: true, ExtraPct: 50, GzipObjPct: 8,
+		W: map[string]int{"upload": 20, "overwrite": 25, "delete": 14, "delete_absent": 5, "patch": 14, "patch_full": 12, "patch_bad": 8, "patch_absent": 4, "compose": 10, "noop": 1, "reads": 2, "decoy": 6}}
 	if msg := e.createBucket("vb1"); msg != "" {
 		fail(msg)
 		return
